@@ -15,6 +15,7 @@ import (
 
 type Pair struct {
 	rc         *RC
+	tag        string
 	A, B       *xmpp.Session // A initiated, B received
 	CA, CB     *simnet.Conn
 	Ctx        context.Context
@@ -27,25 +28,28 @@ type Pair struct {
 }
 
 // NewPair establishes the two sessions; nil on (infrastructure) failure.
-func (rc *RC) NewPair(chunk bool) *Pair {
-	p := &Pair{rc: rc}
-	p.CA, p.CB = rc.Net.Pipe("a", "b")
+func (rc *RC) NewPair(chunk bool) *Pair { return rc.NewPairAs(chunk, "", "a@example.net/ra") }
+
+// NewPairAs: a second pair in one run gets a tag (names of connections and tasks) and an initiator address of its own.
+func (rc *RC) NewPairAs(chunk bool, tag, originAddr string) *Pair {
+	p := &Pair{rc: rc, tag: tag}
+	p.CA, p.CB = rc.Net.Pipe("a"+tag, "b"+tag)
 	p.Ctx, p.Cancel = context.WithCancel(context.Background())
 	rc.OnCleanup(func() { p.Cancel(); p.CA.Close(); p.CB.Close() })
 	if chunk {
 		rc.Net.Chunk = func() int { return 1 + rc.Ch.Int("net", 300) }
 	}
-	origin := jid.MustParse("a@example.net/ra")
+	origin := jid.MustParse(originAddr)
 	var ea, eb error
 	neg := func() xmpp.Negotiator {
 		return xmpp.NewNegotiator(func(*xmpp.Session, *xmpp.StreamConfig) xmpp.StreamConfig {
 			return xmpp.StreamConfig{Features: []xmpp.StreamFeature{xmpp.BindResource()}}
 		})
 	}
-	ta := rc.Spawn("establish-a", func() {
+	ta := rc.Spawn("establish-a"+tag, func() {
 		p.A, ea = xmpp.NewSession(p.Ctx, origin.Domain(), origin, p.CA, xmpp.Secure|xmpp.Authn, neg())
 	})
-	tb := rc.Spawn("establish-b", func() {
+	tb := rc.Spawn("establish-b"+tag, func() {
 		p.B, eb = xmpp.ReceiveSession(p.Ctx, p.CB, xmpp.Secure|xmpp.Authn, neg())
 	})
 	st := rc.S.Run(func() bool { return ta.Done() && tb.Done() }, 20000, time.Minute)
@@ -58,6 +62,6 @@ func (rc *RC) NewPair(chunk bool) *Pair {
 
 // Serve starts both serve loops.
 func (p *Pair) Serve(ha, hb xmpp.Handler) {
-	p.ServeA = p.rc.Spawn("serve-a", func() { p.ErrA = p.A.Serve(ha); p.DoneA = true })
-	p.ServeB = p.rc.Spawn("serve-b", func() { p.ErrB = p.B.Serve(hb); p.DoneB = true })
+	p.ServeA = p.rc.Spawn("serve-a"+p.tag, func() { p.ErrA = p.A.Serve(ha); p.DoneA = true })
+	p.ServeB = p.rc.Spawn("serve-b"+p.tag, func() { p.ErrB = p.B.Serve(hb); p.DoneB = true })
 }
